@@ -54,15 +54,24 @@ pub(crate) fn open<Fd: AsFd, P: AsRef<Path>>(
         ..Default::default()
     };
 
-    syscalls::openat2(&root, path.as_ref(), &how)
-        .map(File::from)
-        .map_err(|err| {
-            ErrorImpl::RawOsError {
-                operation: "openat2 one-shot open".into(),
-                source: err,
-            }
-            .into()
-        })
+    // openat2(2) can fail with -EAGAIN if there was a racing rename or mount
+    // *anywhere on the system*, see resolve() below.
+    for _ in 0..16 {
+        match syscalls::openat2(&root, path.as_ref(), &how) {
+            Ok(file) => return Ok(File::from(file)),
+            Err(err) => match err.root_cause().raw_os_error() {
+                Some(libc::EAGAIN) => continue,
+                _ => Err(ErrorImpl::RawOsError {
+                    operation: "openat2 one-shot open".into(),
+                    source: err,
+                })?,
+            },
+        }
+    }
+
+    Err(ErrorImpl::SafetyViolation {
+        description: "racing filesystem changes caused openat2 to abort".into(),
+    })?
 }
 
 /// Resolve `path` within `root` through `openat2(2)`.
